@@ -68,6 +68,15 @@ func (n *LocalNode) stabilize() error {
 		succList = succList[1:]
 	}
 
+	// a list that reaches ourselves has closed the cycle (ring smaller than the list):
+	// whatever follows can only be nodes that have left, copied along from list to list
+	for i, s := range succList {
+		if s != nil && s.ID() == n.ID() {
+			succList = succList[:i+1]
+			break
+		}
+	}
+
 	n.lastStabilized.Store(time.Now())
 
 	listHash := n.hash(succList)
